@@ -31,6 +31,16 @@ CHECKS = {
         "from custom functions, must leave the interpreter rendering the same bytes. Arguments.Get/NumOfArguments/IsSet/ParseInto "
         "are compared with the argument vector of the specification's normal form for piped and slot-placed values.",
    design_ref="DESIGN.md §5 C18", note=EXEC_TRUST),
+ "C03": dict(
+   technique="TLA+ JetLex (denotational contract Rendered(input) over byte strings, parametric in action/comment delimiters, with "
+             "trim markers, comments and leading import clauses) enumerated exhaustively by TLC (all byte strings / all token "
+             "strings up to the bound); every string rendered by the real library under the same delimiter configuration",
+   text="For four delimiter configurations TLC enumerates every byte string up to the bound over the delimiter bytes plus '-', "
+        "space, newline and an identifier byte, and every token string up to the bound over delimiters, trim markers, whitespace "
+        "runs, identifiers and lone delimiter bytes, with and without leading import clauses; the contract says what must be "
+        "rendered or that the source must be rejected (unclosed comment). The real library must produce exactly those bytes. "
+        "Exhaustive over the bounded string space, which covers every adjacency of text, comment, action and trim marker.",
+   design_ref="DESIGN.md §5 C03", note=NOTE_TRUST + " Action bodies are restricted to one identifier; other bodies are 'unspecified' and not emitted. The byte-level mechanism model (LexImpl) of the design is not built; the contract is bound directly to the code."),
  "C04": dict(
    technique="TLA+ JetExpr (precedence ladder as an unparser with minimal parentheses; evaluator on exact rationals with probe-call "
              "log) enumerated by TLC over tree shapes x operator pairs x typed leaves; every tree rendered by the real library in "
